@@ -799,6 +799,7 @@ class Engine:
         self.concrete = concrete
         self.stop_on_failure = stop_on_failure
         self.tol = tol
+        self.rung_ms = 10000   # per-rung limit of the obligation portfolio
         self.randomize = 0
         self.as_float = False
         self.used_values: dict = {}
@@ -1251,7 +1252,7 @@ class Engine:
         if kind == 'div':
             fs, n = abstract_big(self.pc + [z3.Not(cond)])
             if n:
-                r, m = self._one_shot(fs, min(tmo, 10000))
+                r, m = self._one_shot(fs, min(tmo, self.rung_ms))
                 if r == 'unsat':
                     verdict = 'unsat'
         if verdict is None and alt is not None:
@@ -1259,7 +1260,7 @@ class Engine:
             # identity is settled by z3's normal form in ms, whereas
             # hypotheses push it into genuine non-linear search
             (rc,), hyps = recip_abstract([cond])
-            r, m = self._one_shot([z3.Not(rc)], min(tmo, 10000))
+            r, m = self._one_shot([z3.Not(rc)], min(tmo, self.rung_ms))
             if r == 'unsat':
                 verdict = 'unsat'
             elif r != 'sat':
@@ -1272,7 +1273,7 @@ class Engine:
                         rs = z3.Or([d != 0 for d in ds])
                         if _DEBUG:
                             print('[som rung]', len(ds), [str(d)[:40] for d in ds[:3]], flush=True)
-                        r2, _ = self._one_shot([rs], min(tmo, 10000))
+                        r2, _ = self._one_shot([rs], min(tmo, self.rung_ms))
                         if r2 == 'unsat':
                             verdict = 'unsat'
                             r = 'unsat'
@@ -1288,7 +1289,7 @@ class Engine:
                 if m2 is not None:
                     verdict, model = 'sat', m2
             if verdict is None and hyps:
-                r, m = self._one_shot(hyps + [z3.Not(rc)], min(tmo, 10000))
+                r, m = self._one_shot(hyps + [z3.Not(rc)], min(tmo, self.rung_ms))
                 if r == 'unsat':
                     verdict = 'unsat'
         if verdict is None and alt is not None:
@@ -1319,7 +1320,7 @@ class Engine:
                 fs = [z3.simplify(f, som=True, som_blowup=100000) for f in fs]
             except z3.Z3Exception:
                 pass
-            r, m = self._one_shot(fs, min(tmo, 10000))
+            r, m = self._one_shot(fs, min(tmo, self.rung_ms))
             if r == 'unsat':
                 verdict = 'unsat'
         if verdict is None:
